@@ -1,12 +1,148 @@
 import GrinVerif.Drv.Common
-/-! Driver glue for the `cons` domain (line protocol handler). -/
+import GrinVerif.Model.Cons
+/-! Driver glue for the `cons` domain (property C04): header rules and difficulty retarget.
+
+Token formats: chain type `main|test|auto|user`; a difficulty-window entry
+`ts:diff:scaling:sec` (`sec` 0/1), windows `[e,e,…]` latest first; an abstract header
+`height:ts:version:total_difficulty:secondary_scaling:edge_bits:hash64:output_mmr_size:kernel_mmr_size`
+(`none` for a missing parent); booleans `0|1`. -/
 namespace GV.Drv.ConsD
-open GV GV.Drv
+open GV GV.Drv GV.Cons
 
 structure St where
   dummy : Unit := ()
 
-def handle (st : St) (_args : List String) (_impl : String) : St × Verdict :=
-  (st, .unknown)
+def ct? : String → Option ChainType
+  | "main" => some .mainnet
+  | "test" => some .testnet
+  | "auto" => some .automatedTesting
+  | "user" => some .userTesting
+  | _ => none
+
+def bool? : String → Option Bool
+  | "0" => some false
+  | "1" => some true
+  | _ => none
+
+def int? (s : String) : Option Int := s.toInt?
+
+def hdi? (s : String) : Option HDI :=
+  match s.splitOn ":" with
+  | [a, b, c, d] =>
+    match nat? a, nat? b, nat? c, bool? d with
+    | some a, some b, some c, some d => some { ts := a, diff := b, scaling := c, isSec := d }
+    | _, _, _, _ => none
+  | _ => none
+
+def listOf {α} (f : String → Option α) (s : String) : Option (List α) :=
+  if !(s.startsWith "[" && s.endsWith "]") then none else
+  let inner := (s.drop 1).dropEnd 1 |>.toString
+  if inner.isEmpty then some [] else (inner.splitOn ",").mapM f
+
+def window? (s : String) : Option (List HDI) := listOf hdi? s
+
+def hdr? (s : String) : Option Hdr :=
+  match s.splitOn ":" with
+  | [a, b, c, d, e, f, g, h, i] =>
+    match nat? a, int? b, nat? c, nat? d, nat? e, nat? f, nat? g, nat? h, nat? i with
+    | some a, some b, some c, some d, some e, some f, some g, some h, some i =>
+      some { height := a, ts := b, version := c, totalDiff := d, secondaryScaling := e,
+             edgeBits := f, hash64 := g, outputMmrSize := h, kernelMmrSize := i }
+    | _, _, _, _, _, _, _, _, _ => none
+  | _ => none
+
+def optHdr? (s : String) : Option (Option Hdr) :=
+  if s = "none" then some none else (hdr? s).map some
+
+def showHdi (d : HDI) : String :=
+  s!"{d.ts}:{d.diff}:{d.scaling}:{if d.isSec then 1 else 0}"
+
+def showWindow (l : List HDI) : String := "[" ++ ",".intercalate (l.map showHdi) ++ "]"
+
+def showOpt {α} (f : α → String) : Option α → String
+  | none => "panic"
+  | some a => f a
+
+def showExc {ε} (f : ε → String) : Except ε Unit → String
+  | .ok () => "ok"
+  | .error e => f e
+
+def ReadErr.name : ReadErr → String
+  | .CorruptedData => "CorruptedData"
+  | .InvalidBlockVersion => "InvalidBlockVersion"
+
+/-- acceptance of a header the model rejects is a failing input for the property itself;
+a different error class is a model disagreement -/
+def cmpAccept (model impl : String) : Verdict :=
+  if model = impl then .ok
+  else if impl = "ok" then .fail model
+  else .diff model
+
+def handle (st : St) (args : List String) (impl : String) : St × Verdict :=
+  match args with
+  | ["damp", a, g, f] => match nat? a, nat? g, nat? f with
+    | some a, some g, some f => (st, cmpModel (showOpt toString (damp a g f)) impl)
+    | _, _, _ => (st, .unknown)
+  | ["clamp", a, g, f] => match nat? a, nat? g, nat? f with
+    | some a, some g, some f => (st, cmpModel (showOpt toString (clamp a g f)) impl)
+    | _, _, _ => (st, .unknown)
+  | ["ratio", h] => match nat? h with
+    | some h => (st, cmpModel (toString (secondaryPowRatio h)) impl)
+    | none => (st, .unknown)
+  | ["hv", c, h] => match ct? c, nat? h with
+    | some c, some h => (st, cmpModel (toString (headerVersion c h)) impl)
+    | _, _ => (st, .unknown)
+  | ["vhv", c, h, v] => match ct? c, nat? h, nat? v with
+    | some c, some h, some v => (st, cmpModel (showBool (validHeaderVersion c h v)) impl)
+    | _, _, _ => (st, .unknown)
+  | ["gw", c, h, e] => match ct? c, nat? h, nat? e with
+    | some c, some h, some e => (st, cmpModel (toString (graphWeight c h e)) impl)
+    | _, _, _ => (st, .unknown)
+  | ["params", c] => match ct? c with
+    | some c => (st, cmpModel
+        s!"{minEdgeBits c} {baseEdgeBits c} {maxBlockWeight c} {initialGraphWeight c} {minWtemaGraphWeight c}" impl)
+    | none => (st, .unknown)
+  | ["arcount", w] => match window? w with
+    | some w => (st, cmpModel (toString (arCount w)) impl)
+    | none => (st, .unknown)
+  | ["sps", h, w] => match nat? h, window? w with
+    | some h, some w => (st, cmpModel (showOpt toString (secondaryPowScaling h w)) impl)
+    | _, _ => (st, .unknown)
+  | ["ddv", c, w] => match ct? c, window? w with
+    | some c, some w => (st, cmpModel (showOpt showWindow (difficultyDataToVector c w)) impl)
+    | _, _ => (st, .unknown)
+  | ["nd", c, h, w] => match ct? c, nat? h, window? w with
+    | some c, some h, some w => (st, cmpModel (showOpt showHdi (nextDifficulty c h w)) impl)
+    | _, _, _ => (st, .unknown)
+  | ["ndma", c, h, w] => match ct? c, nat? h, window? w with
+    | some c, some h, some w => (st, cmpModel (showOpt showHdi (nextDmaDifficulty c h w)) impl)
+    | _, _, _ => (st, .unknown)
+  | ["nwtema", c, w] => match ct? c, window? w with
+    | some c, some w => (st, cmpModel (showOpt showHdi (nextWtemaDifficulty c w)) impl)
+    | _, _ => (st, .unknown)
+  | ["todiff", c, h, e, s, x] => match ct? c, nat? h, nat? e, nat? s, nat? x with
+    | some c, some h, some e, some s, some x => (st, cmpModel (toString (toDifficulty c h e s x)) impl)
+    | _, _, _, _, _ => (st, .unknown)
+  | ["unscaled", x] => match nat? x with
+    | some x => (st, cmpModel (toString (fromNum (scaledDifficulty x 1))) impl)
+    | none => (st, .unknown)
+  | ["edge", c, e] => match ct? c, nat? e with
+    | some c, some e => (st, cmpModel s!"{showBool (isPrimary c e)} {showBool (isSecondary e)}" impl)
+    | _, _ => (st, .unknown)
+  | ["diter", hs] => match listOf hdr? hs with
+    | some hs => (st, cmpModel (showWindow (difficultyIter hs)) impl)
+    | none => (st, .unknown)
+  | ["vh", c, den, skip, pok, prev, h, w] =>
+    match ct? c, bool? den, bool? skip, bool? pok, optHdr? prev, hdr? h, window? w with
+    | some c, some den, some skip, some pok, some prev, some h, some w =>
+      let ctx : Ctx := { ct := c, denied := den, prev := prev, window := w, skipPow := skip, powOk := pok }
+      (st, cmpAccept (showExc Err.name (validateHeader ctx h)) impl)
+    | _, _, _, _, _, _, _ => (st, .unknown)
+  | ["uhdr", c, now, ftl, sok, h] =>
+    match ct? c, int? now, nat? ftl, bool? sok, hdr? h with
+    | some c, some now, some ftl, some sok, some h =>
+      (st, cmpAccept (showExc ReadErr.name (untrustedHeaderCheck c now ftl sok h)) impl)
+    | _, _, _, _, _ => (st, .unknown)
+  | _ => (st, .unknown)
 
 end GV.Drv.ConsD
